@@ -439,6 +439,33 @@ func TestSpreadRequestsRapid(t *testing.T) {
 				rt.Fatalf("instance %d zone %d: after the caller overwrote a result, the generator's reserved tokens changed: %v..., want %v...", inst, zone, head(again2), head(reserved))
 			}
 		}
+		// a second attempt on the same generator object (a lifecycler whose write lost a race asks again with
+		// the ring as it is now): the taken list differs from the first one in a few places only, possibly
+		// with the same length and the same ends
+		if len(taken) >= 3 && rapid.Bool().Draw(rt, "secondAttempt") {
+			taken2 := append([]uint32{}, taken...)
+			for k := rapid.IntRange(1, 3).Draw(rt, "changedPlaces"); k > 0; k-- {
+				taken2[rapid.IntRange(1, len(taken2)-2).Draw(rt, "changedAt")] = reserved[rapid.IntRange(0, 511).Draw(rt, "changedTo")]
+			}
+			tk2 := map[uint32]bool{}
+			for _, x := range taken2 {
+				tk2[x] = true
+			}
+			var want2 []uint32
+			for _, x := range reserved {
+				if len(want2) >= count {
+					break
+				}
+				if !tk2[x] {
+					want2 = append(want2, x)
+				}
+			}
+			got2 := g.GenerateTokens(count, taken2)
+			vx.Class("second_attempt_with_a_taken_list_changed_in_the_middle", 1)
+			if fmt.Sprint([]uint32(got2)) != fmt.Sprint(want2) && !(len(got2) == 0 && len(want2) == 0) {
+				rt.Fatalf("instance %d zone %d count %d: second attempt on the same generator with a taken list of the same length changed in the middle: got %d tokens %v..., want %d tokens %v...", inst, zone, count, len(got2), head(got2), len(want2), head(want2))
+			}
+		}
 		if vx.WantSample("spread_request") {
 			vx.Sample("spread_request", map[string]any{"instance": inst, "zone": zone, "count": count, "taken": len(taken), "returned": len(got)})
 		}
